@@ -297,6 +297,10 @@ func (g *gen) addGeneric(pkg *Pkg, other *File, file *File) {
 	if len(ids) == 0 {
 		ids = append(ids, g.addNamedID(pkg, file))
 	}
+	if len(ids) == 1 && rapid.Bool().Draw(t, "genericSecondArg") {
+		// two instantiations of one generic type in one program
+		ids = append(ids, g.addNamedID(pkg, file))
+	}
 	for i, id := range ids {
 		if i >= 2 {
 			break
